@@ -782,7 +782,7 @@ fn run_real(case: &Case, target: RealTarget, bursts: &[(Vec<f32>, f64, usize)], 
 				for i in 0..frames {
 					let got = world.out[2 * i];
 					let tol = if target == RealTarget::Tweener { 2e-5 * want.abs().max(1e-3) } else { 2e-6 * want.abs() + 1e-9 };
-					if (got - want).abs() > tol {
+					if !((got - want).abs() <= tol) {
 						res.fail(Violation::new(
 							"real-handles",
 							"value-in-force-is-not-the-last-write",
